@@ -81,12 +81,29 @@ end Serde
 /-! ### compact JSON text, as `serde_json::to_string` prints it (for ASCII strings without escapes) -/
 namespace Json
 
-partial def render : Json → String
-  | .null => "null"
-  | .num n => toString n
-  | .str s => "\"" ++ s ++ "\""
-  | .arr items => "[" ++ ",".intercalate (items.map render) ++ "]"
-  | .obj fields => "{" ++ ",".intercalate (fields.map fun (k, v) => "\"" ++ k ++ "\":" ++ render v) ++ "}"
+/-! the printer, on character lists, by structural recursion (total, so that the round trip through the
+text can be proved: PubgrubProofs/SerdeLawsAux.lean) -/
+mutual
+def renderC : Json → List Char
+  | .null => ['n', 'u', 'l', 'l']
+  | .num n => Nat.toDigits 10 n
+  | .str s => '"' :: (s.toList ++ ['"'])
+  | .arr [] => ['[', ']']
+  | .arr (j :: js) => '[' :: (renderC j ++ renderItems js)
+  | .obj [] => ['{', '}']
+  | .obj ((k, v) :: fs) => '{' :: '"' :: (k.toList ++ '"' :: ':' :: (renderC v ++ renderFields fs))
+/-- the items after the first, and the closing bracket -/
+def renderItems : List Json → List Char
+  | [] => [']']
+  | j :: js => ',' :: (renderC j ++ renderItems js)
+/-- the fields after the first, and the closing brace -/
+def renderFields : List (String × Json) → List Char
+  | [] => ['}']
+  | (k, v) :: fs => ',' :: '"' :: (k.toList ++ '"' :: ':' :: (renderC v ++ renderFields fs))
+end
+
+/-- the text the driver prints and compares with `serde_json::to_string` -/
+def render (j : Json) : String := String.ofList (renderC j)
 
 /-- a small parser for the same subset (no escapes, non-negative integers), with fuel -/
 def skipWs : List Char → List Char
